@@ -19,11 +19,15 @@ Init == z = [k |-> "start"]
 OpenVar == {"openMfs0", "openMfs3", "openMfs4", "openMfs6", "openMfs7", "openMfs8", "openMfs100", "openMfs511", "openChmax0", "openIdle1"}
 \* floods: hundreds of legal frames written back to back (echo requests, dispositions for unknown deliveries, session flows, empty frames) against
 \* an endpoint whose internal channels hold a single frame ("tight": buffer_size 1 on connection and session): it must keep answering and stay usable
+ResumeVar == {"unsOffHuge", "unsSecHuge", "unsOffEnd", "unsGhosts", "unsManyGhosts", "unsAccepted", "unsNull", "unsDeclared", "unsIncomplete", "unsReceivedOk"}
 Floods == {"floodEcho", "floodEchoDisp", "floodEchoDisp1", "floodEchoDisp2", "floodSessFlow"}
 Next == z.k = "start" /\ \/ \E st \in States, h \in Raw \cup Proto : z' = [k |-> "case", st |-> st, h |-> h]
                          \* (which task the runtime picks when several are ready is random: every flood is run a few times)
                          \/ \E h \in Floods, n \in 1..3 : z' = [k |-> "case", st |-> "tight", h |-> h, n |-> n]
                          \/ \E h \in OpenVar \cup Raw : z' = [k |-> "case", st |-> "header", h |-> h]
+                         \* a sending link with an unsettled delivery has been detached without closing and is being resumed: the peer's attach carries an
+                         \* unsettled map of its own making (positions beyond the message, unknown tags, many of them, states no receiver can be in)
+                         \/ (Side = "client" /\ \E h \in ResumeVar : z' = [k |-> "case", st |-> "resuming", h |-> h])
 Spec == Init /\ [][Next]_z
 
 PF(perf, ch, f) == [e |-> "PFrame", perf |-> perf, ch |-> ch, f |-> f]
@@ -46,12 +50,22 @@ Receiver == IF Side = "client"
             THEN << [e |-> "AAttachR", l |-> "L2", s |-> "s1", cfg |-> [snd |-> 1, rcv |-> 0, credit |-> 2, auto_accept |-> TRUE]], PF("attach", 3, [name |-> "L2", h |-> 6, role |-> "s", snd |-> 1, rcv |-> 0, idc |-> 0]) >>
             ELSE << [e |-> "AAcceptLink", l |-> "L2", s |-> "s1", cfg |-> [credit |-> 2]], PF("attach", 3, [name |-> "L2", h |-> 6, role |-> "s", snd |-> 1, rcv |-> 0, idc |-> 0]) >>
 MidXfer == << [e |-> "PFrame", perf |-> "transfer", ch |-> 3, f |-> [h |-> 6, did |-> 0, tagn |-> 1, tag |-> <<0>>, fmt |-> 0, settled |-> "t", more |-> TRUE], msg |-> [m |-> 50, len |-> 100, off |-> 0, n |-> 30, shape |-> "data"]] >>
+\* a second sending link (unsettled deliveries), one delivery of 60 bytes nobody has settled, detached without closing, resume under way
+Resuming == << [e |-> "AAttachS", l |-> "L4", s |-> "s1", cfg |-> [snd |-> 0, rcv |-> 0, idc |-> 0]], PF("attach", 3, [name |-> "L4", h |-> 8, role |-> "r", snd |-> 0, rcv |-> 0]),
+               [e |-> "PFrame", perf |-> "flow", ch |-> 3, ech |-> 0, f |-> [nii |-> [seen |-> 0], iw |-> 100, noi |-> 0, ow |-> 100, h |-> 8, dc |-> 0, lc |-> 50]],
+               [e |-> "ASend", l |-> "L4", m |-> 7, len |-> 60, batchable |-> TRUE],
+               [e |-> "ADetach", l |-> "L4", closed |-> FALSE, keep |-> TRUE], PF("detach", 3, [h |-> 8, closed |-> FALSE, err |-> ""]),
+               [e |-> "AResume", l |-> "L4"] >>
+UnsAttach(uns, inc) == PF("attach", 3, [name |-> "L4", h |-> 8, role |-> "r", snd |-> 0, rcv |-> 0, uns |-> uns, incomplete |-> inc])
+RcvSt(sn, so) == [k |-> "received", cond |-> "", txn |-> <<>>, sn |-> sn, so |-> so]
+St(k) == [k |-> k, cond |-> "", txn |-> <<>>, sn |-> 0, so |-> 0]
 Prefix(st) == IF st = "header" THEN SubSeq(IF Side = "client" THEN ClientOpen ELSE ListenerOpen, 1, 2) ELSE
               (IF Side = "client" THEN ClientOpen ELSE ListenerOpen)
               \o (IF st = "open" THEN <<>> ELSE Begin)
-              \o (IF st \in {"sender", "receiver", "midxfer", "closing", "tight"} THEN Sender ELSE <<>>)
+              \o (IF st \in {"sender", "receiver", "midxfer", "closing", "tight", "resuming"} THEN Sender ELSE <<>>)
               \o (IF st \in {"receiver", "midxfer", "closing"} THEN Receiver ELSE <<>>)
               \o (IF st = "midxfer" THEN MidXfer ELSE <<>>)
+              \o (IF st = "resuming" THEN Resuming ELSE <<>>)
               \o (IF st = "closing" THEN <<[e |-> "AClose", err |-> ""]>> ELSE <<>>)
 HdrOv(perf, ch, f, hdr) == [e |-> "PFrame", perf |-> perf, ch |-> ch, f |-> f, hdr |-> hdr]
 FlowS == [nii |-> 1000, iw |-> 100, noi |-> 0, ow |-> 100]
@@ -114,9 +128,19 @@ Hostile(h) ==
     [] h = "openAgain" -> <<PF("open", 0, [mfs |-> 4096, chmax |-> 10])>>
     [] h = "xferToSender" -> <<[e |-> "PFrame", perf |-> "transfer", ch |-> 3, f |-> XferF(5, 40), msg |-> Msg(60)]>>
     [] h = "detachUnattached" -> <<PF("detach", 3, [h |-> 88, closed |-> TRUE, err |-> ""])>>
+    [] h = "unsOffHuge" -> <<UnsAttach(<<[tag |-> [d |-> 0], st |-> RcvSt(0, 1000000)]>>, FALSE)>>
+    [] h = "unsSecHuge" -> <<UnsAttach(<<[tag |-> [d |-> 0], st |-> RcvSt(2000000000, 0)]>>, FALSE)>>
+    [] h = "unsOffEnd" -> <<UnsAttach(<<[tag |-> [d |-> 0], st |-> RcvSt(2, 70)]>>, FALSE)>>
+    [] h = "unsReceivedOk" -> <<UnsAttach(<<[tag |-> [d |-> 0], st |-> RcvSt(0, 3)]>>, FALSE)>>
+    [] h = "unsGhosts" -> <<UnsAttach(<<[tag |-> <<9, 9>>, st |-> St("accepted")], [tag |-> <<9, 8>>, st |-> RcvSt(1, 1)], [tag |-> <<>>, st |-> St("released")]>>, FALSE)>>
+    [] h = "unsManyGhosts" -> <<UnsAttach([i \in 1..300 |-> [tag |-> <<7, i % 256, i \div 256>>, st |-> RcvSt(0, 0)]], FALSE)>>
+    [] h = "unsAccepted" -> <<UnsAttach(<<[tag |-> [d |-> 0], st |-> St("accepted")]>>, FALSE)>>
+    [] h = "unsNull" -> <<UnsAttach(<<[tag |-> [d |-> 0], st |-> St("none")]>>, FALSE)>>
+    [] h = "unsDeclared" -> <<UnsAttach(<<[tag |-> [d |-> 0], st |-> [k |-> "declared", cond |-> "", txn |-> <<1, 2>>, sn |-> 0, so |-> 0]]>>, FALSE)>>
+    [] h = "unsIncomplete" -> <<UnsAttach(<<>>, TRUE)>>
     [] h = "flowBadRole" -> <<PF("flow", 3, [nii |-> 1000, iw |-> 100, noi |-> 0, ow |-> 100, h |-> 6, dc |-> 0, lc |-> 5, drain |-> TRUE])>>
 \* the probe: ordinary use afterwards; every call must return
-Probe(st) == (IF st \in {"sender", "receiver", "midxfer", "tight"} THEN <<[e |-> "ASend", l |-> "L1", m |-> 1, len |-> 20, settled |-> TRUE]>> ELSE <<>>)
+Probe(st) == (IF st \in {"sender", "receiver", "midxfer", "tight", "resuming"} THEN <<[e |-> "ASend", l |-> "L1", m |-> 1, len |-> 20, settled |-> TRUE]>> ELSE <<>>)
              \o (IF st = "header" THEN <<[e |-> "ABegin", s |-> "s1", cfg |-> [noi |-> 1000, iw |-> 3, ow |-> 100]]>> ELSE <<>>)
              \o (IF st = "closing" THEN <<>> ELSE <<[e |-> "AClose", err |-> ""]>>) \o <<PF("close", 0, [err |-> ""]), [e |-> "PEof"]>>
 Emit == z.k = "start" \/ PrintT(<<"SCRIPT", ToJson([side |-> Side, id |-> <<Side, z.st, z.h>> \o (IF "n" \in DOMAIN z THEN <<z.n>> ELSE <<>>), final_ms |-> 60000, ev |-> Prefix(z.st) \o Hostile(z.h) \o Probe(z.st)])>>)
